@@ -245,6 +245,17 @@ class ReplacementFrontend(ConstrainedFrontend):
         return super()._concrete_constraint(e)
 
     def _add(self, constraints, invalidate_cache=True):
+        added = super()._add(constraints)
+
+        # Rewrite the constraints with the replacements known so far, *before* any replacement is derived from them:
+        # a constraint rewritten with its own replacement (x*y == 6 with x*y -> 6) becomes True and never reaches
+        # the actual solver, although the replacement only covers the syntactic occurrences of x*y.
+        cr = self._replace_list(added)
+        if not self._allow_symbolic and any(c.symbolic for c in cr):
+            raise ClaripyFrontendError(
+                "symbolic constraints made it into ReplacementFrontend with allow_symbolic=False"
+            )
+
         if self._auto_replace:
             for c in constraints:
                 # the badass thing here would be to use the *replaced* constraint, but
@@ -277,12 +288,6 @@ class ReplacementFrontend(ConstrainedFrontend):
 
                         self.add_replacement(old, rold.intersection(new))
 
-        added = super()._add(constraints)
-        cr = self._replace_list(added)
-        if not self._allow_symbolic and any(c.symbolic for c in cr):
-            raise ClaripyFrontendError(
-                "symbolic constraints made it into ReplacementFrontend with allow_symbolic=False"
-            )
         self._actual_frontend.add(cr)
 
         return added
